@@ -16,6 +16,40 @@ import (
 
 const cborPath = "github.com/fxamacker/cbor/v2"
 
+// optionsModelled: the option fields the tree model interprets; any other field of the mode's option
+// struct must have its zero value (otherwise the model would silently ignore a configuration change)
+var optionsModelled = map[string]map[string]bool{
+	"DecOptions": {"DupMapKey": true, "IndefLength": true, "IntDec": true, "MaxNestedLevels": true, "TagsMd": true},
+	"EncOptions": {"NilContainers": true, "Sort": true, "TagsMd": true, "IndefLength": true},
+}
+
+func (e *Engine) checkOptionsModelled(sv *StructV, typeName string) {
+	if e.optsChecked[sv] {
+		return
+	}
+	if e.optsChecked == nil {
+		e.optsChecked = map[*StructV]bool{}
+	}
+	e.optsChecked[sv] = true
+	st := e.lookupType(cborPath, typeName).Underlying().(*types.Struct)
+	for i := 0; i < st.NumFields() && i < len(sv.fields); i++ {
+		name := st.Field(i).Name()
+		if optionsModelled[typeName][name] {
+			continue
+		}
+		switch v := sv.fields[i].(type) {
+		case *Term:
+			if !v.isConst() || v.u64() != 0 {
+				e.unsupported("cbor " + typeName + "." + name + " is set but not interpreted by the model")
+			}
+		case Iface:
+			if v.typ != nil {
+				e.unsupported("cbor " + typeName + "." + name + " is set but not interpreted by the model")
+			}
+		}
+	}
+}
+
 func (e *Engine) optField(sv *StructV, typeName, field string) uint64 {
 	if idx, ok := e.Program.fieldCache.Load(typeName + "." + field); ok {
 		t, ok := sv.fields[idx.(int)].(*Term)
@@ -113,6 +147,7 @@ type encCtx struct {
 }
 
 func (e *Engine) cborMarshal(opts *StructV, v Iface) Value {
+	e.checkOptionsModelled(opts, "EncOptions")
 	ctx := encCtx{
 		sort:          e.sortMode(e.optField(opts, "EncOptions", "Sort")),
 		tagsForbidden: e.optField(opts, "EncOptions", "TagsMd") == e.cborConst("TagsForbidden"),
@@ -504,6 +539,7 @@ type decCtx struct {
 	indefForbidden bool
 	dupEnforced   bool
 	intDecSigned  bool
+	maxNested     int
 	opts          *StructV
 	input         *BytesObj
 }
@@ -513,7 +549,13 @@ func (e *Engine) decCtxOf(opts *StructV, data BytesV) decCtx {
 	for root != nil && root.aliasOf != nil {
 		root = root.aliasOf
 	}
+	e.checkOptionsModelled(opts, "DecOptions")
+	maxNested := int(e.optField(opts, "DecOptions", "MaxNestedLevels"))
+	if maxNested == 0 {
+		maxNested = 32
+	}
 	return decCtx{
+		maxNested:      maxNested,
 		tagsForbidden:  e.optField(opts, "DecOptions", "TagsMd") == e.cborConst("TagsForbidden"),
 		indefForbidden: e.optField(opts, "DecOptions", "IndefLength") == e.cborConst("IndefLengthForbidden"),
 		dupEnforced:    e.optField(opts, "DecOptions", "DupMapKey") == e.cborConst("DupMapKeyEnforcedAPF"),
@@ -854,8 +896,9 @@ func (e *Engine) wellformed(ctx decCtx, n *Node, depth int) string {
 	if n.indef && ctx.indefForbidden {
 		return "indefinite-length items are forbidden"
 	}
-	if depth > 32 {
-		return "exceeded max nested level 32"
+	if (n.major == 4 || n.major == 5 || n.major == 6) && depth > ctx.maxNested {
+		// the library counts arrays, maps and tags (valid.go: depth++ on entering one)
+		return fmt.Sprintf("exceeded max nested level %d", ctx.maxNested)
 	}
 	switch n.major {
 	case 6:
